@@ -8,7 +8,7 @@ use crate::nf::{CmpOp, Kind, Pipeline, Step};
 pub struct Opts {
     pub star_bp: u32,
     pub filter_bp: u32,
-    /// R-paren-fn: `(foo)(x)`, `("foo")(x)`
+    /// R-paren-fn: `(foo)(x)`, `("foo")(x)` — but not `"foo"(x)` / `"foo" (x)`
     pub relax_paren_fn: bool,
     /// R-ms-after-proj: `a[*][b,c]`
     pub relax_ms_after_proj: bool,
@@ -377,7 +377,10 @@ impl<'a> P<'a> {
             Tok::Gt => Ok(vec![Step::Cmp(CmpOp::Gt, left, self.expr(5)?)]),
             Tok::Gte => Ok(vec![Step::Cmp(CmpOp::Ge, left, self.expr(5)?)]),
             Tok::LParen if self.o.relax_paren_fn => {
-                if left.len() == 1 {
+                // the crate refuses a quoted identifier DIRECTLY followed by `(` ("Quoted strings can't be
+                // a function name"); only a name reached through a group, `("foo")(x)`, gets through
+                let directly_after_quoted = self.i >= 2 && matches!(self.t[self.i - 2].tok, Tok::QIdent(_));
+                if left.len() == 1 && !directly_after_quoted {
                     if let Step::Field(name) = &left[0] {
                         let name = name.clone();
                         let args = self.args()?;
